@@ -258,43 +258,47 @@ def replay_evo(rep, light=False, traces=None):
                     deltas = deltas[rep.variant % 3::3]
                 for dk, t, delta in deltas:
                     psi0 = B.vec()
-                    reused = share and eng is not None             # this engine has already been run
-                    classes = dict(engine=name, ncache=cls_nc(nc), exhausted=run['exhausted'], shift=bool(sigma), delta=dk,
-                                   herm=herm, reused=reused, reortho=reo)
-                    with warnings.catch_warnings():
-                        warnings.simplefilter('ignore')
-                        if eng is None or not share:
-                            eng = cls(B.op(), psi0, opts)
-                        res, N = eng.run(delta, normalize=False)
-                        eng2 = eng if share else cls(B.op(), psi0, opts)
-                        resn, Nn = eng2.run(delta, normalize=True)
-                    rep.count(name, (run['Nmax'], cls_nc(nc), dk, t))
-                    x, xn = B.arr(res), B.arr(resn)
                     scale = B.scale * max(1.0, nv) * math.exp(max(0.0, delta.real) * lam_max)
                     tol = TOL * scale * (1 + abs(delta) * lam_max)
-                    det = dict(options=opts, delta=[delta.real, delta.imag], N=int(N), res=[[float(c.real), float(c.imag)] for c in x])
+                    x = None
+                    for normalize in (False, True):
+                        reused = share and eng is not None             # this engine has already been run
+                        classes = dict(engine=name, ncache=cls_nc(nc), exhausted=run['exhausted'], shift=bool(sigma), delta=dk,
+                                       herm=herm, reused=reused, reortho=reo, normalize=normalize)
+                        with warnings.catch_warnings():
+                            warnings.simplefilter('ignore')
+                            if eng is None or not share:
+                                eng = cls(B.op(), psi0, opts)
+                            res, N = eng.run(delta, normalize=normalize)
+                        rep.count(name, (run['Nmax'], cls_nc(nc), dk, t, normalize))
+                        y = B.arr(res)
+                        det = dict(options=opts, delta=[delta.real, delta.imag], N=int(N), normalize=normalize,
+                                   res=[[float(c.real), float(c.imag)] for c in y])
 
-                    def bad(clause, **more):
-                        d = dict(det)
-                        d.update(more)
-                        rep.fail(name, clause, classes, d)
+                        def bad(clause, **more):
+                            d = dict(det)
+                            d.update(more)
+                            rep.fail(name, clause, classes, d)
 
-                    if int(N) != run['N'] or int(Nn) != run['N']:
-                        bad('N', expected=run['N'])
-                        continue
-                    if abs(np.linalg.norm(xn) - 1.0) > TOL:
-                        bad('normalize-true-norm', got=float(np.linalg.norm(xn)))
-                    if parallel_defect(xn, x) > TOL and np.linalg.norm(x) > 1e-6 * scale:
-                        bad('normalize-true-direction')
-                    if herm and delta.real == 0.0 and abs(np.linalg.norm(x) - nv) > TOL * max(1.0, nv):
-                        bad('norm-not-preserved', got=float(np.linalg.norm(x)), expected=nv)
-                    if run['exhausted']:
-                        if dk == 'iq' and case['exact']:
-                            exp = hk.bv_flat(case['Uv'][t - 1])           # exact Gaussian integers
-                        else:
-                            exp = sum((np.exp(delta * (l + sigma)) * c for l, c in comps), np.zeros(dim, dtype=complex))
-                        if rel(x - exp) > tol:
-                            bad('exp-at-exhaustion', expected=[[float(c.real), float(c.imag)] for c in exp], err=rel(x - exp))
+                        if int(N) != run['N']:
+                            bad('N', expected=run['N'])
+                            break
+                        if normalize:
+                            if abs(np.linalg.norm(y) - 1.0) > TOL:
+                                bad('normalize-true-norm', got=float(np.linalg.norm(y)))
+                            if x is not None and parallel_defect(y, x) > TOL and np.linalg.norm(x) > 1e-6 * scale:
+                                bad('normalize-true-direction')
+                            continue
+                        x = y
+                        if herm and delta.real == 0.0 and abs(np.linalg.norm(x) - nv) > TOL * max(1.0, nv):
+                            bad('norm-not-preserved', got=float(np.linalg.norm(x)), expected=nv)
+                        if run['exhausted']:
+                            if dk == 'iq' and case['exact']:
+                                exp = hk.bv_flat(case['Uv'][t - 1])           # exact Gaussian integers
+                            else:
+                                exp = sum((np.exp(delta * (l + sigma)) * c for l, c in comps), np.zeros(dim, dtype=complex))
+                            if rel(x - exp) > tol:
+                                bad('exp-at-exhaustion', expected=[[float(c.real), float(c.imag)] for c in exp], err=rel(x - exp))
     if traces is not None and herm:
         run = case['runs'][-1]
         nc = (2, 3, None)[rep.variant % 3]
@@ -333,7 +337,7 @@ def replay_arnoldi(rep, light=False):
                 continue
             ritz = case['ritz'][which]
             for numev in (1, 2, 3):
-                if numev >= run['Nmax'] and run['Nmax'] > 1:
+                if numev > 1 and numev >= run['Nmax']:
                     continue        # Arnoldi._converged indexes Es beyond N_max for num_ev >= N_max (unspecified use)
                 if light and numev != 1 + (rep.variant % 3) and numev != 1:
                     continue
